@@ -26,7 +26,9 @@ def build_grid(hs, spec):
         row = {'id': 'r%d' % j, 'n': j, 's': STRS[j % len(STRS)],
                # one value per literal kind of the filter grammar (each has its own parse action)
                'geo': hs.Coordinate(float(j), float(j) / 2), 'u': hs.Uri('http://x/%d' % j), 'b': j % 3 == 0,
-               'r': hs.Ref('p%d' % (j % 4))}
+               'r': hs.Ref('p%d' % (j % 4)),
+               # negative numbers: -1 and -2 are different numbers with the same hash()
+               'q': hs.Quantity(float(-j), 'kW'), 'g2': hs.Coordinate(-float(j), 45.5)}
         for t, members in spec['tags'].items():
             if j in members:
                 row[t] = hs.MARKER
@@ -77,6 +79,10 @@ def expected_rows(spec, f):
             ok = (j % 4) == f['v']
         elif k == 'interval':
             ok = f['a'] <= j < f['b']
+        elif k == 'qty':
+            ok = (j == f['v']) if f['o'] == '==' else (j < f['v'])       # q is -j kW
+        elif k == 'coordn':
+            ok = j == f['v']
         elif k == 'scan':
             ok = j == f['v']
         else:
@@ -131,6 +137,10 @@ def filter_text(f):
         s = 'r == @p%d' % f['v']
     elif k == 'interval':
         s = 'n >= %d and n < %d' % (f['a'], f['b'])
+    elif k == 'qty':
+        s = 'q%s-%dkW' % (f['o'], f['v'])          # (the grammar only takes a quantity literal written without blanks)
+    elif k == 'coordn':
+        s = 'g2 == C(-%s,45.5)' % float(f['v'])
     elif k == 'scan':
         s = 'n == %d or zz%d' % (f['v'], f['u'])
     else:
@@ -229,7 +239,8 @@ class C13(BaseCheck):
         tries = 0
         while len(pool) < size and tries < 200:
             tries += 1
-            kind = k.choice(['has', 'not', 'cmp', 'cmp', 'and', 'or', 'str', 'str', 'ref', 'paren', 'coord', 'uri', 'bool', 'refeq'])
+            kind = k.choice(['has', 'not', 'cmp', 'cmp', 'and', 'or', 'str', 'str', 'ref', 'paren', 'coord', 'uri', 'bool', 'refeq',
+                             'qty', 'coordn'])
             f = {'kind': kind}
             if kind in ('has', 'not', 'ref'):
                 f['t'] = k.choice(tags)
@@ -251,6 +262,11 @@ class C13(BaseCheck):
             elif kind == 'str':
                 f['o'] = k.choice(['==', '=='])
                 f['s'] = k.choice(STRS[:n])
+            elif kind == 'qty':
+                f['o'] = k.choice(['==', '==', '>'])
+                f['v'] = k.choice([1, 2, 1, 2, k.randrange(n)])
+            elif kind == 'coordn':
+                f['v'] = k.choice([1, 2, 1, 2, k.randrange(n)])
             rows = expected_rows(spec, f)
             if not rows or len(rows) == n:
                 continue
@@ -265,6 +281,15 @@ class C13(BaseCheck):
             if kind == 'paren' and k.random() < 0.6 and len(pool) < size:
                 # same words without the parentheses: a different filter (printing the AST loses the difference)
                 pf = {'kind': 'noparen', 't': f['t'], 'u': f['u'], 'v': f['v']}
+                prow = expected_rows(spec, pf)
+                if prow and len(prow) < n and tuple(prow) not in seen:
+                    seen[tuple(prow)] = 1
+                    pf['rows'] = prow
+                    pool.append(pf)
+            if kind in ('qty', 'coordn') and f['v'] in (1, 2) and len(pool) < size:
+                # the same filter about -2 instead of -1 (equal hash(), different number)
+                pf = dict(f, v=3 - f['v'])
+                pf.pop('rows', None)
                 prow = expected_rows(spec, pf)
                 if prow and len(prow) < n and tuple(prow) not in seen:
                     seen[tuple(prow)] = 1
